@@ -477,9 +477,11 @@ def tag_casts(prog, chk, rid, fams=("Variant", "Xml::Variant"), floor=20):
                         init = q.single_def(f, bn["ref"]["id"], defs)
                     if init is not None and "new char[]" in f.r(init):
                         chk.ok(rid, f, "cast of the fresh block to %s" % ty[:30], where, "local block from new", nontrivial=False)
-                    else:
+                        continue
+                    # an alias of a handle's block (e.g. the parameter of an inlined helper): decided by the tag test below
+                    if not (init is not None and re.match(r"^(this->data|\w+\.data)$", q.no_casts(q.xr(f, init, defs)))):
                         chk.bad(rid, f, "cast-of-unknown-block", where, "`%s` is cast to %s but is not the block allocated here" % (base, ty))
-                    continue
+                        continue
                 if base == "this->data":
                     fw = [w for w in q.field_writes(f, "data", "this") if w.rhs is not None and "new char[]" in q.no_casts(C.norm(f, w.rhs, {}, defs)) and f.dominates_pos(w.pos, pos)]
                     if fw:
@@ -503,8 +505,10 @@ def tag_casts(prog, chk, rid, fams=("Variant", "Xml::Variant"), floor=20):
                     ot = f.nodes[obj].get("t", "") if obj is not None else ""
                     if ot.replace("const ", "").rstrip(" *").strip() != ty:
                         continue
-                    atoms = fin.dominating_atoms(f, f.node_pos(dn))
-                    if any(a[0] == "case" and a[2] == tag for a in atoms):
+                    # tags under which this destructor call is reachable (switch labels and if-chains alike)
+                    kt = "this->%s->type" % d["ptr"]
+                    feas, _opq, _atoms = fin.feasible_valuations(f, f.node_pos(dn), {kt: tags})
+                    if sorted(set(v[kt] for v in feas)) == [tag]:
                         hit = True
                 if hit:
                     chk.ok(rid, f, "clear() destroys tag %d as %s" % (tag, ty[:30]), "%s:%s" % (f.file, f.line), "case label + destructor type", evals=2)
